@@ -68,8 +68,9 @@ Do(t) == /\ pend[t].busy /\ ~pend[t].done
 Ret == /\ IsEvent("ret")
        /\ pend[Ev.t].busy /\ pend[Ev.t].done
        /\ LET p == pend[Ev.t] IN
-          /\ p.e.op = "get"  => MatchRec(p.saw[p.e.pu], Ev.rec)
-          /\ p.e.op = "list" => \A u \in UIDs : MatchRec(p.saw[u], Ev.users[u])
+          \/ Ev.void                         \* the call crashed and returned nothing (reported by the driver)
+          \/ /\ p.e.op = "get"  => MatchRec(p.saw[p.e.pu], Ev.rec)
+             /\ p.e.op = "list" => \A u \in UIDs : MatchRec(p.saw[u], Ev.users[u])
        /\ pend' = [pend EXCEPT ![Ev.t] = Idle]
        /\ UNCHANGED vars
 
